@@ -412,6 +412,12 @@ func SimRunScenario(name string, cfg simrt.Config) *SimResult {
 	res := simrt.Run(cfg, func() {
 		sc.Run(e)
 	})
+	if vsys.EventsDropped {
+		// oracles read the system-call log: an incomplete log must never turn into a verdict
+		res.Outcome = "harness-error"
+		res.Blocked = append(res.Blocked, "harness: the system-call event log overflowed")
+		res.Violations = nil
+	}
 	// a netpoll panic in any task is a finding of the scenario's own property
 	for _, p := range res.Panics {
 		if strings.Contains(p.Value, "harness:") && !strings.Contains(p.Value, "scripted") {
@@ -426,7 +432,15 @@ func SimRunScenario(name string, cfg simrt.Config) *SimResult {
 		}
 	}
 	// a capped run that ended in a tight loop of one task is a livelock, not an inconclusive run
-	if res.Outcome == "capped" && res.Spin != "" && len(res.Violations) == 0 {
+	spin := ""
+	switch {
+	case res.Outcome == "capped" || res.Outcome == "livelock":
+		spin = res.Spin
+	case res.RestSpin != "" && !strings.Contains(res.RestSpin, ";"):
+		spin = res.RestSpin // still spinning when everything else had come to rest
+	}
+	if spin != "" && len(res.Violations) == 0 {
+		res.Spin = spin
 		prop, what := "", ""
 		switch {
 		case strings.Contains(res.Spin, "(*server).Close"):
@@ -437,6 +451,11 @@ func SimRunScenario(name string, cfg simrt.Config) *SimResult {
 			// the poller keeps fetching an event it cannot dispatch: the descriptor is still registered
 			// although its slot was released
 			prop, what = "C05", "poller-spins-on-released-slot"
+		case res.Outcome == "livelock" && strings.Contains(res.Spin, "(*locker).stop"):
+			// a task spins on one of the connection's locks (Close waiting for a flush or a handler to let
+			// go) while nothing else in the system can take a step, no timer is pending and nobody waits
+			// for quiescence: whoever holds the lock is never going to be woken
+			prop, what = sc.Property, "close-spins-for-ever-on-connection-lock"
 		}
 		if prop != "" {
 			fns := res.Spin[strings.Index(res.Spin, "|")+1:]
